@@ -744,6 +744,10 @@ def search_interferometers(ctx, count):
             sig = "mesh:%s:raises:%s" % (mesh, type(e).__name__)
             if mesh == "sun_compact" and "determinant 1" in str(e):
                 sig = "mesh:sun_compact:raises-determinant-on-block-unitary"
+                offdiag = np.abs(U - np.diag(np.diag(U)))
+                if (data.get("tol") or 0) >= 1e-4 and 0 < offdiag.max() <= 20 * data["tol"]:
+                    # a loose user tolerance of the order of the matrix's small entries
+                    sig = "mesh:sun_compact:loose-tol-near-identity-raises"
             ctx.counterexample(sig, "Interferometer(mesh=%s) on a %s unitary raised %r" % (mesh, cls, e), data)
             continue
         if dev > TOL_MAT:
